@@ -153,6 +153,15 @@ def _work(job):
             res['k2'] = {'frames': k2['frames'], 'other': k2['other'], 'inv_frames': k2.get('inv_frames', 0), 'jrn_frames': k2.get('jrn_frames', 0)}
             if k2['mismatch'] and 'soft' not in res:
                 res['soft'] = {'clause': 900, 'frame': k2['mismatch'].get('frame'), 'k2': k2['mismatch']}
+        else:
+            # outside the stage-1 scope: the stage-2 engine model (routers, reneging, pre-emption, schedules, slots, class change while
+            # waiting, server priority functions), same stepwise comparison from the implementation's own snapshots and draws
+            import engine_k2b
+            if engine_k2b.in_scope(cfg):
+                k2 = engine_k2b.check_trace(tr, _DRV, max_frames=getattr(prop, 'k2_frames', 60) * job.get('k2x', 1), mask=(getattr(prop, 'k2_mask2', None) or prop.k2_mask) or None)
+                res['k2b'] = {'frames': k2['frames'], 'other': k2['other']}
+                if k2['mismatch'] and 'soft' not in res:
+                    res['soft'] = {'clause': 900, 'frame': k2['mismatch'].get('frame'), 'k2': k2['mismatch'], 'stage': 2}
     res['nontrivial'] = bool(prop.nontrivial(tr)) and len(tr.frames) >= prop.min_frames
     res['stats'] = prop.stats(tr)
     res['status'] = 'ok'
@@ -386,6 +395,10 @@ def run_check(pid, tier, seed, replay=None):
         cov['by_region'][reg] = cov['by_region'].get(reg, 0) + 1
         for k2, v2 in (r.get('stats') or {}).items():
             agg_stats[k2] = agg_stats.get(k2, 0) + v2
+        if r.get('k2b'):
+            k2tot['stage2_runs'] = k2tot.get('stage2_runs', 0) + 1
+            k2tot['stage2_frames'] = k2tot.get('stage2_frames', 0) + r['k2b']['frames']
+            k2tot['stage2_other_slices_diverged'] = k2tot.get('stage2_other_slices_diverged', 0) + r['k2b']['other']
         if r.get('k2'):
             k2tot['runs'] += 1
             k2tot['frames'] += r['k2']['frames']
